@@ -153,17 +153,148 @@ Section NormProofs.
   Lemma append_keeps_names l n b k : In k (keys (view l)) -> In k (keys (view (MTar.append norm l n b))).
   Proof. unfold MTar.append. rewrite view_app, In_keys_apply_ops. tauto. Qed.
 
-  (* ---------------------------------------------------------------- members with header fields *)
-  Lemma strip_mappend ms n b : strip (MTar.mappend norm ms n b) = MTar.append norm (strip ms) n b.
-  Proof. unfold MTar.mappend, MTar.append, strip. rewrite map_app. reflexivity. Qed.
+  (* ---------------------------------------------------------------- members with header fields and links *)
+  Notation flat1 := (MTar.flat1 norm).
+  Notation flatten := (MTar.flatten norm).
+  Definition inl' (e : entry) : name * (bytes + name) := (fst e, inl (snd e)).
+  Definition rehdr (f : member -> hdr) (m : member) : member := (m_name m, f m, m_pay m).
+  Arguments rehdr : simpl never.
+  Definition nosym (ms : list member) : Prop := forallb (fun m => negb (is_sym m)) ms = true.
+  Definition reg (e : entry) : member := (norm (fst e), hdr0, PBytes (snd e)).
 
-  Lemma mappend_visible ms n b :
+  Lemma flat1_rehdr f ms : forall acc, flat1 acc (map (rehdr f) ms) = flat1 acc ms.
+  Proof.
+    induction ms as [|[[n h] p] r IH]; intros acc; [reflexivity|].
+    cbn [map]. unfold rehdr at 1.
+    destruct p as [b|t|t]; cbn; rewrite ?IH; try reflexivity.
+    destruct (lookup (norm t) acc); rewrite ?IH; reflexivity.
+  Qed.
+
+  Lemma flatten_rehdr f ms : flatten (map (rehdr f) ms) = flatten ms.
+  Proof. unfold MTar.flatten. rewrite flat1_rehdr. reflexivity. Qed.
+
+  Lemma solid_inl lg : solid (map inl' lg) = lg.
+  Proof. induction lg as [|[n b] r IH]; [reflexivity|]. cbn. unfold solid in IH. rewrite IH. reflexivity. Qed.
+
+  Lemma flat2_inl lg : flat2 norm (map inl' lg) = lg.
+  Proof.
+    unfold flat2. generalize (MTar.view norm (solid (map inl' lg))). intro final.
+    induction lg as [|[n b] r IH]; [reflexivity|]. cbn. rewrite IH. reflexivity.
+  Qed.
+
+  Lemma flat1_nosym ms : nosym ms -> forall acc, flat1 acc ms = map inl' (solid (flat1 acc ms)).
+  Proof.
+    unfold nosym. induction ms as [|[[n h] p] r IH]; intros NS acc; [reflexivity|].
+    cbn [forallb] in NS. apply andb_true_iff in NS. destruct NS as [N1 NS].
+    cbn [MTar.flat1 m_pay m_name fst snd]. destruct p as [b|t|t].
+    - cbn. unfold solid in IH. rewrite <- IH by assumption. reflexivity.
+    - destruct (lookup (norm t) acc); [|apply IH; assumption].
+      cbn. unfold solid in IH. rewrite <- IH by assumption. reflexivity.
+    - discriminate.
+  Qed.
+
+  Lemma flatten_nosym ms : nosym ms -> flatten ms = solid (flat1 [] ms).
+  Proof. intros NS. unfold MTar.flatten. rewrite (flat1_nosym ms NS). rewrite flat2_inl, solid_inl. reflexivity. Qed.
+
+  Fixpoint acc_after (acc : index) (ms : list member) : index :=
+    match ms with
+    | [] => acc
+    | m :: r => match m_pay m with
+                | PBytes b => acc_after (insert (norm (m_name m)) b acc) r
+                | PHard t => match lookup (norm t) acc with
+                             | Some b => acc_after (insert (norm (m_name m)) b acc) r
+                             | None => acc_after acc r
+                             end
+                | PSym _ => acc_after acc r
+                end
+    end.
+
+  Lemma flat1_app a b : forall acc, flat1 acc (a ++ b) = flat1 acc a ++ flat1 (acc_after acc a) b.
+  Proof.
+    induction a as [|[[n h] p] r IH]; intros acc; [reflexivity|].
+    cbn [app MTar.flat1 acc_after m_pay m_name fst snd]. destruct p as [x|t|t].
+    - rewrite IH. reflexivity.
+    - destruct (lookup (norm t) acc); rewrite IH; reflexivity.
+    - rewrite IH. reflexivity.
+  Qed.
+
+  Lemma flat1_regs ops : forall acc, flat1 acc (map reg ops) = map inl' (map nentry ops).
+  Proof.
+    induction ops as [|e r IH]; intros acc; [reflexivity|].
+    cbn [map]. unfold reg at 1. cbn [MTar.flat1 m_pay m_name fst snd]. rewrite IH. reflexivity.
+  Qed.
+
+  Lemma nosym_app a b : nosym a -> nosym b -> nosym (a ++ b).
+  Proof. unfold nosym. intros A B. rewrite forallb_app, A, B. reflexivity. Qed.
+
+  Lemma nosym_regs ops : nosym (map reg ops).
+  Proof. unfold nosym. induction ops as [|e r IH]; [reflexivity|]. cbn. exact IH. Qed.
+
+  (* members appended by kapture simply extend what a reader gets (no symlink in the archive: a symlink would follow them) *)
+  Lemma flatten_app_regular ms ops : nosym ms -> flatten (ms ++ map reg ops) = flatten ms ++ map nentry ops.
+  Proof.
+    intros NS. rewrite (flatten_nosym _ (nosym_app _ _ NS (nosym_regs ops))), (flatten_nosym _ NS).
+    rewrite flat1_app, flat1_regs. unfold solid at 1. rewrite flat_map_app. fold (solid (flat1 [] ms)).
+    f_equal. apply solid_inl.
+  Qed.
+
+  Lemma mappend_visible ms n b : nosym ms ->
     lookup (norm n) (MTar.mview norm (MTar.mappend norm ms n b)) = Some b /\
     (forall m, m <> norm n -> lookup m (MTar.mview norm (MTar.mappend norm ms n b)) = lookup m (MTar.mview norm ms)).
-  Proof. unfold MTar.mview. rewrite strip_mappend. apply append_visible. Qed.
+  Proof.
+    intros NS. unfold MTar.mview, MTar.mappend.
+    change [(norm n, hdr0, PBytes b)] with (map reg [(n, b)]). rewrite flatten_app_regular by assumption.
+    apply (append_visible (flatten ms) n b).
+  Qed.
 
-  Lemma strip_rehdr (f : member -> hdr) ms : strip (map (fun m => (m_name m, f m, snd m)) ms) = strip ms.
-  Proof. unfold strip. rewrite map_map. apply map_ext. intros [[n h] b]. reflexivity. Qed.
+  (* packing a folder with hard links: what a reader gets is the folder, path by path *)
+  Lemma flat1_pack_hl ld : forall seen acc,
+    (forall x, In x ld -> norm (fst (fst x)) = fst (fst x)) ->
+    NoDup (map (fun x => fst (fst x)) ld) ->
+    (forall x y, In x ld -> In y ld -> snd (fst x) = snd (fst y) -> snd x = snd y) ->
+    (forall i t, lookup i seen = Some t ->
+       norm t = t /\ ~ In t (map (fun x => fst (fst x)) ld) /\
+       exists b, lookup t acc = Some b /\ forall x, In x ld -> snd (fst x) = i -> snd x = b) ->
+    flat1 acc (pack_hl_go seen ld) = map inl' (ldir_entries ld).
+  Proof.
+    induction ld as [|[[n i] b] r IH]; intros seen acc NN ND IOK INV; [reflexivity|].
+    cbn [map fst snd] in ND. inversion ND as [|? ? NI ND']; subst.
+    assert (Nn : norm n = n) by (apply (NN (n, i, b)); left; reflexivity).
+    assert (NNr : forall x, In x r -> norm (fst (fst x)) = fst (fst x)) by (intros x I; apply NN; right; exact I).
+    assert (IOKr : forall x y, In x r -> In y r -> snd (fst x) = snd (fst y) -> snd x = snd y)
+      by (intros x y Ix Iy; apply IOK; right; assumption).
+    cbn [pack_hl_go]. destruct (lookup i seen) as [t|] eqn:L.
+    - destruct (INV i t L) as [Nt [NIt [b0 [Lb Hb]]]].
+      assert (E : b = b0) by (apply (Hb (n, i, b)); [left; reflexivity | reflexivity]). subst b0.
+      cbn [MTar.flat1 m_pay m_name fst snd]. rewrite Nt, Lb, Nn. cbn [ldir_entries map fst snd]. unfold inl' at 1. cbn [fst snd].
+      f_equal. apply IH; try assumption.
+      intros i' t' L'. destruct (INV i' t' L') as [Nt' [NIt' [b' [Lb' Hb']]]].
+      split; [assumption|]. split; [intro I; apply NIt'; right; exact I|].
+      exists b'. split; [|intros x I; apply Hb'; right; exact I].
+      rewrite lookup_insert_neq; [assumption|]. intros ->. apply NIt'. left. reflexivity.
+    - cbn [MTar.flat1 m_pay m_name fst snd]. rewrite Nn. cbn [ldir_entries map fst snd]. unfold inl' at 1. cbn [fst snd].
+      f_equal. apply IH; try assumption.
+      intros i' t' L'. cbn [lookup] in L'. destruct (eqb_spec i' i) as [->|Ni].
+      + injection L' as <-. split; [assumption|]. split; [assumption|].
+        exists b. split; [apply lookup_insert_eq|].
+        intros x I Ex. symmetry. apply (IOK (n, i, b) x); [left; reflexivity | right; exact I | symmetry; exact Ex].
+      + destruct (INV i' t' L') as [Nt' [NIt' [b' [Lb' Hb']]]].
+        split; [assumption|]. split; [intro I; apply NIt'; right; exact I|].
+        exists b'. split; [|intros x I; apply Hb'; right; exact I].
+        rewrite lookup_insert_neq; [assumption|]. intros ->. apply NIt'. left. reflexivity.
+  Qed.
+
+  Lemma flatten_pack_hl ld :
+    (forall x, In x ld -> norm (fst (fst x)) = fst (fst x)) ->
+    NoDup (map (fun x => fst (fst x)) ld) ->
+    (forall x y, In x ld -> In y ld -> snd (fst x) = snd (fst y) -> snd x = snd y) ->
+    flatten (pack_hl ld) = ldir_entries ld.
+  Proof.
+    intros NN ND IOK. unfold MTar.flatten, pack_hl.
+    assert (H : flat1 [] (pack_hl_go [] ld) = map inl' (ldir_entries ld)).
+    { apply flat1_pack_hl; try assumption. intros i t L. discriminate L. }
+    rewrite H. apply flat2_inl.
+  Qed.
 
   (* ---------------------------------------------------------------- packing a folder *)
   Lemma last_write_In n ops :
@@ -303,6 +434,20 @@ Section NormProofs.
     rewrite kill_after.
     destruct base as [l|], ops as [|e r]; cbn [reader odflt]; try reflexivity;
       rewrite view_app, apply_ops_nentry; reflexivity.
+  Qed.
+
+  Lemma reader_after_kill_members (base : option (list member)) ops :
+    nosym (odflt [] base) ->
+    reader norm (kill (run_appends norm true (open_append (option_map flatten base)) ops)) =
+    match disk_members norm base ops with None => OpenFails | Some ms => Opened (MTar.mview norm ms) end.
+  Proof.
+    intros NS. rewrite kill_after. unfold disk_members, MTar.mview.
+    change (fun e : entry => (norm (fst e), hdr0, PBytes (snd e))) with reg.
+    destruct base as [l|]; destruct ops as [|e r]; cbn [option_map odflt reader] in *.
+    - cbn [map]. rewrite !app_nil_r. reflexivity.
+    - rewrite flatten_app_regular by assumption. reflexivity.
+    - reflexivity.
+    - rewrite flatten_app_regular by reflexivity. reflexivity.
   Qed.
 
   Lemma close_adds_nothing base ops :
